@@ -5,17 +5,17 @@ import itertools, json, os, random, concurrent.futures
 import vlib, pydiff
 
 THEOREMS = ["C04_callsite_roundtrip", "C04_make_function_roundtrip", "C04_all_parameters_bound"]
-CODE = {"a": 1, "b": 2, "d": 4, "e": 5, "z": 9}
+CODE = {"a": 1, "b": 2, "g": 7, "d": 4, "e": 5, "z": 9}
 
 def signatures():
     sigs = []
-    for npos in (0, 1, 2):
+    for npos in (0, 1, 2, 3):
         for ndefs in range(npos + 1):
             for var in (False, True):
                 for nkwo in (0, 1, 2):
                     for kwd in itertools.product((False, True), repeat=nkwo):
                         for kwarg in (False, True):
-                            sigs.append(dict(pos=["a", "b"][:npos], ndefs=ndefs, vararg=var, kwonly=["d", "e"][:nkwo],
+                            sigs.append(dict(pos=["a", "b", "g"][:npos], ndefs=ndefs, vararg=var, kwonly=["d", "e"][:nkwo],
                                              kwdefs=[n for n, has in zip(["d", "e"], kwd) if has], kwarg=kwarg))
     return sigs
 
@@ -35,12 +35,12 @@ def sig_src(s):
 
 def calls():
     out = []
-    for nargs in range(4):
+    for nargs in range(5):
         for r in range(0, 4):
-            for kws in itertools.combinations(["a", "b", "d", "e", "z"], r):
+            for kws in itertools.combinations(["a", "b", "d", "e", "g", "z"], r):
                 out.append(dict(nargs=nargs, kws=list(kws), seq=None, map=None))
-    for nargs in range(3):
-        for kws in ([], ["d"], ["b", "e"]):
+    for nargs in range(4):
+        for kws in ([], ["d"], ["b", "e"], ["g"]):
             for seq in ([], [400], [400, 401]):
                 for mp in (None, [], ["e"], ["z"], ["a"]):
                     out.append(dict(nargs=nargs, kws=kws, seq=seq, map=mp))
@@ -158,7 +158,7 @@ def check(res):
     go_ok = rc == 0 and "FAIL" not in out
     res.oblige("Go callables of the four signatures receive receiver/args/kwargs exactly (harness scenario with two contexts)", go_ok, out[-1500:])
     res.coverage.update(evaluations=n, distinct_nontrivial=nontrivial,
-        rule="all signatures over <=2 positional (each trailing default choice), optional *c, <=2 keyword-only (each with/without default), optional **k (%d signatures) x call shapes with 0..3 positionals, keyword subsets of {a,b,d,e,z}, optional *seq and **map (%d shapes; quick samples 70 per signature); non-trivial = a call using keywords, *seq or **map" % (len(sigs), len(cs)),
+        rule="all signatures over <=3 positional (each trailing default choice), optional *c, <=2 keyword-only (each with/without default), optional **k (%d signatures) x call shapes with 0..4 positionals, keyword subsets of {a,b,g,d,e,z}, optional *seq and **map (%d shapes; quick samples 70 per signature); non-trivial = a call using keywords, *seq or **map" % (len(sigs), len(cs)),
         samples=[dict(signature=sig_src(metas[37][0]).splitlines()[0], call=call_src(metas[37][1][0]), observed=impl[37].get("out", "").splitlines()[:1])],
         distribution=dict(signatures=len(sig_sel), pairs=n, model_checked=len(rows)), oracle_disagreements=len(mism),
         modelled_not_verified=["*seq/**map merging in Vm.Call", "ParseTupleAndKeywords formats", "error message selection"])
